@@ -19,6 +19,7 @@ CLAUSE = CLAUSE + (" is_leap_year() reads the year only through remainders by di
                    "classes (a finite congruence domain covering every year) its control flow yields the Gregorian rule.")
 CLAUSE = CLAUSE + (" pdc.c takes no remainder of a possibly negative signed value; the indefinite validity window is selected by "
                    "the day-of-month test alone in both window functions.")
+CLAUSE = CLAUSE + (' The PIL-to-time conversions return a time only after a successful vbi_pil_is_valid_date().')
 NOT_DECIDED = ("year inference, leap-day acceptance, validity-window lengths, overflow checks (numeric); "
                "libc setenv/tzset semantics and restore_tz's own ENOMEM path are trusted/documented exceptions.")
 
